@@ -1323,3 +1323,121 @@ Proof.
       rewrite app_nil_r in Hin. contradiction.
   - right. exists c0, (r ++ [c]). repeat split; auto. change (c0 :: r ++ [c]) with ((c0 :: r) ++ [c]). apply Forall_app. split; [exact H3|repeat constructor; exact Hlt].
 Qed.
+
+(* ---- the configuration ---- *)
+Definition opt_fine (h : hopt) : Prop :=
+  plain (o_long (h_o h)) /\ (match o_short (h_o h) with Some s => plain s | None => True end) /\
+  no_lt (odesc (h_odesc h)) /\ ph_name (h_vname h) /\ no_lt (json (o_default (h_o h))).
+Definition arg_fine (a : harg) : Prop :=
+  plain (a_name (h_a a)) /\ ph_name (a_name (h_a a)) /\ no_lt (odesc (h_adesc a)) /\
+  no_lt (json (a_default (h_a a))) /\ ends_with_bsl (json (a_default (h_a a))) = false.
+
+Lemma preferred_plain h : opt_fine h -> plain (fst (opt_preferred (h_o h))).
+Proof.
+  intros (H1 & H2 & _). unfold opt_preferred. destruct (bit (o_flags (h_o h)) 0); cbn [fst]; [apply (dashes_plain _ H1)|].
+  destruct (o_short (h_o h)) as [s|]; [apply (dashes_plain _ H2)|plain_const].
+Qed.
+Lemma plain_ends n : plain n -> ends_with_bsl n = false.
+Proof. intros [_ H]. now apply no_bsl_ends. Qed.
+Lemma syn_opt_part_calm sty h : opt_fine h -> calm sty (munge (syn_opt_part sty h)).
+Proof.
+  intros Hf. pose proof (plain_munge _ (preferred_plain h Hf)) as Hn. destruct Hf as (_ & _ & _ & Hv & _).
+  pose proof (placeholder_munge sty (h_vname h) (proj1 Hv)) as Hm. unfold syn_opt_part. cbv zeta.
+  set (nm := fst (opt_preferred (h_o h))) in *. set (ph := placeholder sty (h_vname h)) in *.
+  destruct (o_required (h_o h)); [|destruct (o_optional (h_o h))].
+  - rewrite !munge_app, Hm. change (munge [91%N]) with [91%N]. change (munge [93%N]) with [93%N]. change (munge [160%N]) with [160%N].
+    replace ([91%N] ++ (munge nm ++ [160%N] ++ ph) ++ [93%N]) with ((([91%N] ++ munge nm ++ [160%N]) ++ ph) ++ [93%N]) by now rewrite <- !app_assoc.
+    apply calm_app; [|apply plain_calm; plain_const]. apply placeholder_calm; [exact Hv| |].
+    + apply Forall_app. split; [repeat constructor; discriminate|]. apply Forall_app. split; [apply Hn|repeat constructor; discriminate].
+    + now rewrite !app_assoc, ends_snoc.
+  - rewrite !munge_app, Hm. change (munge [91%N]) with [91%N]. change (munge [93%N]) with [93%N]. change (munge [160; 91]%N) with [160; 91]%N.
+    replace ([91%N] ++ (munge nm ++ [160; 91]%N ++ ph ++ [93%N]) ++ [93%N]) with ((([91%N] ++ munge nm ++ [160; 91]%N) ++ ph) ++ [93; 93]%N)
+      by now rewrite <- !app_assoc.
+    apply calm_app; [|apply plain_calm; plain_const]. apply placeholder_calm; [exact Hv| |].
+    + apply Forall_app. split; [repeat constructor; discriminate|]. apply Forall_app. split; [apply Hn|repeat constructor; discriminate].
+    + change [160; 91]%N with ([160%N] ++ [91%N]). now rewrite !app_assoc, ends_snoc.
+  - rewrite !munge_app. change (munge [91%N]) with [91%N]. change (munge [93%N]) with [93%N].
+    apply plain_calm. apply plain_app; [plain_const|]. apply plain_app; [exact Hn|plain_const].
+Qed.
+Lemma ph_name_digit nm : ph_name nm -> ph_name (nm ++ [49%N]) /\ ph_name (nm ++ [78%N]).
+Proof.
+  intros H. split; apply ph_name_snoc; try exact H; try reflexivity; try discriminate; cbn; intros [E|[]]; discriminate.
+Qed.
+Lemma syn_arg_parts_calm sty a : arg_fine a -> Forall (calm sty) (map munge (syn_arg_parts sty a)).
+Proof.
+  intros (_ & Hp & _). destruct (ph_name_digit _ Hp) as [H1 HN]. unfold syn_arg_parts. cbv zeta.
+  assert (ph_name (a_name (h_a a) ++ (if a_multi (h_a a) then [49%N] else []))) as Hn1.
+  { destruct (a_multi (h_a a)); [exact H1|now rewrite app_nil_r]. }
+  set (n1 := a_name (h_a a) ++ (if a_multi (h_a a) then [49%N] else [])) in *.
+  cbn [map]. constructor.
+  - destruct (a_required (h_a a)).
+    + rewrite (placeholder_munge sty n1 (proj1 Hn1)). apply (placeholder_calm sty n1 [] Hn1); [constructor|reflexivity].
+    + rewrite !munge_app, (placeholder_munge sty n1 (proj1 Hn1)). change (munge [91%N]) with [91%N]. change (munge [93%N]) with [93%N].
+      rewrite app_assoc. apply calm_app; [|apply plain_calm; plain_const].
+      apply placeholder_calm; [exact Hn1|repeat constructor; discriminate|reflexivity].
+  - destruct (a_multi (h_a a)); cbn [map]; constructor; [|constructor].
+    rewrite !munge_app, (placeholder_munge sty _ (proj1 HN)). change (munge [46; 46; 46; 32; 91]%N) with [46; 46; 46; 32; 91]%N.
+    change (munge [93%N]) with [93%N]. rewrite app_assoc. apply calm_app; [|apply plain_calm; plain_const].
+    apply placeholder_calm; [exact HN|repeat constructor; discriminate|reflexivity].
+Qed.
+Lemma synopsis_text_calm sty app_name names opts args prefix lo : Forall opt_fine opts -> Forall arg_fine args ->
+  calm sty (munge (elem_text (synopsis sty app_name names opts args prefix lo))).
+Proof.
+  intros Ho Ha. rewrite synopsis_text, munge_join. apply calm_join. unfold syn_parts. rewrite map_app. apply Forall_app. split.
+  - induction Ho; cbn [map]; constructor; [now apply syn_opt_part_calm|assumption].
+  - induction Ha; cbn [flat_map map]; [constructor|]. rewrite map_app. apply Forall_app. split; [now apply syn_arg_parts_calm|assumption].
+Qed.
+
+(* ---- the text of an option and of an argument ---- *)
+Definition markup_fine (sty : styles) (t : str) : Prop := no_lt t \/ (no_hyphen_in_tags (munge t) /\ neutral sty false (munge t)).
+Lemma calm_fine sty t : calm sty (munge t) -> markup_fine sty t.
+Proof. intros (_ & H2 & H3). right. auto. Qed.
+(* a description, a blank, and calm text: the blank keeps a backslash at the end of the description away from the tag *)
+Lemma calm_behind_desc sty d rest : no_lt d -> calm sty (munge rest) -> calm sty (munge (d ++ 32%N :: rest)).
+Proof.
+  intros Hd Hr. rewrite munge_app. change (munge (32%N :: rest)) with (32%N :: munge rest).
+  change (munge d ++ 32%N :: munge rest) with (munge d ++ [32%N] ++ munge rest). rewrite app_assoc. apply calm_app; [|exact Hr].
+  apply calm_text; [apply Forall_app; split; [now apply munge_no_lt|repeat constructor; discriminate]|now rewrite ends_snoc].
+Qed.
+Lemma bold_calm sty x : no_lt x -> ends_with_bsl x = false -> calm sty (munge (B_OPEN ++ x ++ B_CLOSE)).
+Proof.
+  intros Hx He. rewrite !munge_app. change (munge B_OPEN) with B_OPEN. change (munge B_CLOSE) with B_CLOSE.
+  apply calm_wrap; [exact simple_b|]. apply calm_text; [now apply munge_no_lt|now rewrite munge_ends].
+Qed.
+Lemma option_text_fine sty h : opt_fine h -> markup_fine sty (elem_text (render_option h)).
+Proof.
+  intros (_ & _ & Hd & _ & Hj). unfold render_option. destruct (opt_preferred (h_o h)) as [pref alt]. cbn [elem_text].
+  set (d := odesc (h_odesc h)) in *. set (J := json (o_default (h_o h))) in *.
+  set (K1 := [32;60;98;62;40;100;101;102;97;117;108;116;58;32]%N). set (K2 := [41;60;47;98;62]%N).
+  set (K3 := [32;60;98;62;40;109;117;108;116;105;112;108;101;32;118;97;108;117;101;115;32;97;108;108;111;119;101;100;41;60;47;98;62]%N).
+  assert (calm sty (munge (B_OPEN ++ [40;100;101;102;97;117;108;116;58;32]%N ++ J ++ [41%N] ++ B_CLOSE))) as Cdef.
+  { rewrite (app_assoc _ J), (app_assoc _ [41%N]). apply bold_calm; [|now rewrite ends_snoc].
+    apply Forall_app. split; [apply Forall_app; split; [repeat constructor; discriminate|exact Hj]|repeat constructor; discriminate]. }
+  assert (calm sty (munge (B_OPEN ++ [40;109;117;108;116;105;112;108;101;32;118;97;108;117;101;115;32;97;108;108;111;119;101;100;41]%N ++ B_CLOSE))) as Cmul.
+  { apply bold_calm; [repeat constructor; discriminate|reflexivity]. }
+  set (DEF := B_OPEN ++ [40;100;101;102;97;117;108;116;58;32]%N ++ J ++ [41%N] ++ B_CLOSE) in *.
+  set (MUL := B_OPEN ++ [40;109;117;108;116;105;112;108;101;32;118;97;108;117;101;115;32;97;108;108;111;119;101;100;41]%N ++ B_CLOSE) in *.
+  destruct (o_accepts (h_o h) && has_default (o_default (h_o h))), (o_multi (h_o h)).
+  - apply calm_fine.
+    match goal with |- calm _ (munge ?x) => assert (x = d ++ 32%N :: (DEF ++ 32%N :: MUL)) as -> end.
+    { subst K1 K2 K3 DEF MUL; unfold B_OPEN, B_CLOSE, tag_str, NM_B; repeat (progress (cbn [app]; rewrite <- ?app_assoc)); reflexivity. }
+    apply (calm_behind_desc sty d (DEF ++ 32%N :: MUL) Hd). rewrite munge_app. apply calm_app; [exact Cdef|].
+    change (munge (32%N :: MUL)) with ([32%N] ++ munge MUL). apply calm_app; [apply plain_calm; plain_const|exact Cmul].
+  - apply calm_fine.
+    match goal with |- calm _ (munge ?x) => assert (x = d ++ 32%N :: DEF) as -> end.
+    { subst K1 K2 DEF; unfold B_OPEN, B_CLOSE, tag_str, NM_B; repeat (progress (cbn [app]; rewrite <- ?app_assoc)); reflexivity. }
+    exact (calm_behind_desc sty d DEF Hd Cdef).
+  - apply calm_fine.
+    match goal with |- calm _ (munge ?x) => assert (x = d ++ 32%N :: MUL) as -> end.
+    { subst K3 MUL; unfold B_OPEN, B_CLOSE, tag_str, NM_B; cbn [app]; reflexivity. }
+    exact (calm_behind_desc sty d MUL Hd Cmul).
+  - now left.
+Qed.
+Lemma argument_text_fine sty a : arg_fine a -> markup_fine sty (elem_text (render_argument a)).
+Proof.
+  intros (_ & _ & Hd & Hj & He). unfold render_argument. cbn [elem_text].
+  destruct (has_default (a_default (h_a a))); [|now left]. apply calm_fine.
+  replace (odesc (h_adesc a) ++ [32;60;98;62]%N ++ json (a_default (h_a a)) ++ [60;47;98;62]%N)
+    with (odesc (h_adesc a) ++ 32%N :: (B_OPEN ++ json (a_default (h_a a)) ++ B_CLOSE)) by reflexivity.
+  apply (calm_behind_desc sty (odesc (h_adesc a)) (B_OPEN ++ json (a_default (h_a a)) ++ B_CLOSE) Hd). now apply bold_calm.
+Qed.
